@@ -72,6 +72,9 @@ class Pair:
         self.domain = True
         self.changed = False
 
+    def to_int(self, x):     # used by c33.Impl.trans
+        return mc.as_int(x)
+
     def make_jit(self):
         self.J = self.cluster.MonteCarloSampler_jit(**self.cluster.MonteCarloSampler_param(self.MC))
 
@@ -205,7 +208,7 @@ def op_trans(ctx, rec, p, hist):
         # the compiled class returns empty arrays where the reference raises ValueError: nothing to compare
         return True
     t, dx = c33.Impl.trans(p)
-    rec.add('trans', t, b, hist, tail=['trans'], kind='trans', extra=dx)
+    rec.add('trans', t, b, hist, tail=['trans'], kind='trans', extra=(dx, 0))
     jt = oracle_transitions(ctx, p, hist)
     if jt is not None:
         rec.add('jtrans', jt[3:], b, hist, tail=['trans'])
